@@ -71,54 +71,139 @@ def _pattern_text(fn, e) -> Optional[str]:
     return None
 
 
+def _discovery_fn(prog):
+    """The function of __main__.py that holds the suffix test of the discovery loop (main itself, or a helper /
+    nested function extracted from it), with the test."""
+    hits = []
+    for fn in prog.fns:
+        if fn.mod.rel != "__main__.py":
+            continue
+        for n in walk_fn(fn.node):
+            if isinstance(n, ast.Compare) and len(n.ops) == 1 and isinstance(n.ops[0], (ast.In, ast.NotIn)) \
+                    and text(n.left).endswith(".suffix"):
+                hits.append((fn, n))
+    return hits
+
+
+def _is_args_file(e) -> bool:
+    return isinstance(e, ast.Attribute) and text(e) == "args.file"
+
+
+def _args_file_test(test):
+    """+1: true iff file arguments were given; -1: true iff none were given; None: some other condition."""
+    if _is_args_file(test):
+        return 1
+    if isinstance(test, ast.UnaryOp) and isinstance(test.op, ast.Not):
+        v = _args_file_test(test.operand)
+        return None if v is None else -v
+    if isinstance(test, ast.Compare) and len(test.ops) == 1:
+        l, r = text(test.left), text(test.comparators[0])
+        op = test.ops[0]
+        if l == "len(args.file)" and r == "0":
+            return -1 if isinstance(op, ast.Eq) else 1 if isinstance(op, (ast.Gt, ast.NotEq)) else None
+        if l == "args.file" and r in ("[]", "None"):
+            return -1 if isinstance(op, (ast.Eq, ast.Is)) else 1 if isinstance(op, (ast.NotEq, ast.IsNot)) else None
+    return None
+
+
+def default_glob_condition(prog, fn, call, depth=0):
+    """Under which condition is the no-argument glob evaluated?  Returns (ok, description)."""
+    from ..calls import callgraph
+    child = call
+    for a in ancestors(call):
+        if isinstance(a, (ast.FunctionDef, ast.AsyncFunctionDef, ast.Lambda)):
+            break
+        if isinstance(a, ast.IfExp) and child is not a.test:
+            pol = _args_file_test(a.test)
+            want = 1 if child is a.orelse else -1
+            return (pol == want), f"`{text(a.test, 60)}` ({'else' if child is a.orelse else 'then'} side)"
+        if isinstance(a, ast.BoolOp) and child is not a.values[0]:
+            before = a.values[:a.values.index(child)]
+            if isinstance(a.op, ast.Or):
+                return all(_is_args_file(b) for b in before), f"`{' or '.join(text(b, 40) for b in before)}` being false"
+            return all(_args_file_test(b) == -1 for b in before), f"`{' and '.join(text(b, 40) for b in before)}` being true"
+        if isinstance(a, ast.If) and child is not a.test:
+            pol = _args_file_test(a.test)
+            in_body = any(child is s for s in a.body)
+            if pol is None and _args_file_test_free(a.test):
+                child = a
+                continue                      # an unrelated enclosing condition (e.g. the --cfile / --hfile switch)
+            return (pol == (-1 if in_body else 1)), f"`if {text(a.test, 60)}` ({'then' if in_body else 'else'} branch)"
+        child = a
+    if depth < 2 and fn.key != "__main__.py::main":
+        cg = callgraph(prog)
+        sites = [c for c in cg.sites.get(fn.key, []) if isinstance(c.node, ast.Call)]
+        if len(sites) == 1:
+            return default_glob_condition(prog, sites[0].caller, sites[0].node, depth + 1)
+    return False, "no condition at all"
+
+
+def _args_file_test_free(test) -> bool:
+    return "args.file" not in text(test) and "files" not in text(test) and "stack" not in text(test)
+
+
 def check(run, prog):
     main = prog.fn("__main__.py::main")
-    g = cfg_of(main)
 
     # ---- R-15.1 ------------------------------------------------------------------------------------
     run.rule("R-15.1", "sibling agreement: the suffix test for explicitly named files and the two glob patterns (no argument / "
              "directory argument) all denote exactly {.c, .h}; both globs are recursive with a **/ component", floor=3)
-    site_a = None
-    for n in walk_fn(main.node):
-        if isinstance(n, ast.Compare) and len(n.ops) == 1 and isinstance(n.ops[0], (ast.In, ast.NotIn)) and text(n.left).endswith(".suffix"):
-            site_a = n
-    run.require(site_a is not None, "anchor vanished: `path.suffix [not] in (...)` in main")
-    sa = fold_in_fn(site_a.comparators[0], main, default=None)
+    hits = _discovery_fn(prog)
+    run.require(len(hits) == 1, f"anchor vanished: exactly one `path.suffix [not] in (...)` test in __main__.py (found {len(hits)})")
+    disc, site_a = hits[0]
+    g = cfg_of(disc)
+    sa = fold_in_fn(site_a.comparators[0], disc, default=None)
     s_a = set(sa) if isinstance(sa, (tuple, list, set, frozenset)) else None
     run.ob("R-15.1", f"{main.key}::suffix-filter[explicit]", s_a == WANT,
            f"explicitly named files are accepted for suffixes {sorted(s_a) if s_a is not None else '?'}; expected exactly {sorted(WANT)}",
            site_a)
-    globs = [n for n in walk_fn(main.node) if isinstance(n, ast.Call) and text(n.func) in ("glob.glob", "glob.iglob")]
-    run.require(len(globs) >= 2, "anchor vanished: the two glob.glob calls of main")
-    for i, c in enumerate(sorted(globs, key=lambda x: x.lineno)):
-        pat = _pattern_text(main, c.args[0]) if c.args else None
-        rec = any(k.arg == "recursive" and try_fold(k.value, main.mod) is True for k in c.keywords)
-        which = "no-argument" if i == 0 else "directory"
+    globs = []
+    for fn in prog.fns:
+        if fn.mod.rel == "__main__.py":
+            globs += [(fn, n) for n in walk_fn(fn.node) if isinstance(n, ast.Call) and text(n.func) in ("glob.glob", "glob.iglob")]
+    run.require(len(globs) >= 2, "anchor vanished: the two glob.glob calls of __main__.py")
+    default_glob = None
+    for fn, c in sorted(globs, key=lambda x: x[1].lineno):
+        pat = _pattern_text(fn, c.args[0]) if c.args else None
+        rec = any(k.arg == "recursive" and try_fold(k.value, fn.mod) is True for k in c.keywords)
         if pat is None:
-            run.ob("R-15.1", f"{main.key}::suffix-filter[glob {which}]", False, f"glob pattern {text(c.args[0])} does not fold", c)
+            run.ob("R-15.1", f"{main.key}::suffix-filter[glob ?]", False, f"glob pattern {text(c.args[0])} does not fold", c)
             continue
+        which = "directory" if pat.startswith("DIR") else "no-argument"
+        if which == "no-argument":
+            default_glob = (fn, c)
         sx = glob_suffixes(pat)
         deep = "**/" in pat
         run.ob("R-15.1", f"{main.key}::suffix-filter[glob {which}]", sx == WANT and rec and deep,
                f"glob pattern {pat!r} matches suffixes {sorted(sx) if sx is not None else 'an unbounded set'} "
                f"(recursive={rec}, has **/: {deep}); expected exactly {sorted(WANT)}, recursive", c, pattern=pat)
 
+    # ---- R-15.5 ------------------------------------------------------------------------------------------
+    run.rule("R-15.5", "the current-directory default is chosen from the arguments, not from what discovery found: the "
+             "no-argument glob is evaluated exactly under a test of `args.file` (IfExp / or / if, right polarity)", floor=1)
+    run.require(default_glob is not None, "anchor vanished: the no-argument glob (pattern without a directory prefix)")
+    okc, desc = default_glob_condition(prog, default_glob[0], default_glob[1])
+    run.ob("R-15.5", f"{main.key}::default-only-without-arguments", okc,
+           f"the whole current directory tree is used under {desc}, which is not `no file argument was given`: named "
+           f"arguments that yield no C source would make every file of the tree be checked (or the default is lost)",
+           default_glob[1], condition=desc)
+
     # ---- R-15.2 -----------------------------------------------------------------------------------------
     run.rule("R-15.2", "MPT exits: the missing-path branch prints and exits non-zero on all paths; the wrong-suffix branch "
-             "prints and cannot reach files.append in that iteration; only the accepted branch appends, once per item; "
+             "prints and cannot reach the append in that iteration; only the accepted branch appends, once per item; "
              "directories only extend the work list", floor=4)
     exists_if = None
-    for n in walk_fn(main.node):
+    for n in walk_fn(disc.node):
         if isinstance(n, ast.If) and "exists()" in text(n.test):
             exists_if = n
-    run.require(exists_if is not None, "anchor vanished: `if not path.exists()` in main")
+    run.require(exists_if is not None, "anchor vanished: `if not path.exists()` in the discovery loop")
     neg = text(exists_if.test).startswith("not ")
     branch = exists_if.body if neg else exists_if.orelse
     has_print = any(isinstance(s, ast.Expr) and isinstance(s.value, ast.Call) and text(s.value.func) == "print" for s in branch)
     ex = [(_exit_stmt(s), s) for s in branch if _exit_stmt(s) is not None]
     okx = bool(ex) and branch and branch[-1] is ex[-1][1]
     if okx:
-        v = try_fold(ex[-1][0].args[0], main.mod) if ex[-1][0].args else None
+        v = try_fold(ex[-1][0].args[0], disc.mod) if ex[-1][0].args else None
         okx = isinstance(v, int) and not isinstance(v, bool) and v != 0
     run.ob("R-15.2", f"{main.key}::missing-path-exit", has_print and okx,
            "a nonexistent path does not end the run with a message and a non-zero status on every path", exists_if)
@@ -128,29 +213,41 @@ def check(run, prog):
     run.require(sfx_if is not None, "anchor vanished: the if statement of the suffix test")
     rejected = sfx_if.body if isinstance(site_a.ops[0], ast.NotIn) else sfx_if.orelse
     accepted = sfx_if.orelse if isinstance(site_a.ops[0], ast.NotIn) else sfx_if.body
-    appends = [n for n in walk_fn(main.node) if isinstance(n, ast.Call) and text(n.func) == "files.append"]
+    stack_loop = next((a for a in ancestors(sfx_if) if isinstance(a, ast.For)), None)
+    run.require(stack_loop is not None, "anchor vanished: the work-list loop of the discovery")
+    worklist = text(stack_loop.iter)
+    appends = [n for n in ast.walk(stack_loop) if isinstance(n, ast.Call) and isinstance(n.func, ast.Attribute)
+               and n.func.attr == "append" and isinstance(n.func.value, ast.Name) and n.func.value.id != worklist]
     rej_print = any(isinstance(s, ast.Expr) and isinstance(s.value, ast.Call) and text(s.value.func) == "print" for s in rejected)
     rej_appends = [a for a in appends if any(_contains(s, a) for s in rejected)]
     # after the rejected branch, no append is reachable in the same iteration of the stack loop
-    stack_loop = next((a for a in ancestors(sfx_if) if isinstance(a, ast.For)), None)
-    run.require(stack_loop is not None, "anchor vanished: the work-list loop of main")
     it = g.nid(stack_loop)
     leak = False
     if rejected:
         first = g.nid(rejected[0]) if g.nid(rejected[0]) is not None else _cfg_node_of_expr(g, rejected[0])
         for a in appends:
             aid = _cfg_node_of_expr(g, a)
-            if any(_contains(stack_loop, a) for _ in [0]) and g.can_reach(first, aid, avoid={it}, follow_exc=False):
+            if g.can_reach(first, aid, avoid={it}, follow_exc=False):
                 leak = True
     run.ob("R-15.2", f"{main.key}::wrong-suffix-not-checked", rej_print and not rej_appends and not leak,
            "a named file with another suffix is not rejected with a message, or is still appended to the files to check", sfx_if)
     acc_appends = [a for a in appends if any(_contains(s, a) for s in accepted)]
     in_inner_loop = [a for a in acc_appends if any(isinstance(x, (ast.For, ast.While)) and x is not stack_loop and _contains(stack_loop, x)
                                                   for x in ancestors(a))]
-    other = [a for a in appends if a not in acc_appends and _contains(stack_loop, a)]
+    other = [a for a in appends if a not in acc_appends]
     arg_ok = all(isinstance(a.args[0], ast.Name) for a in acc_appends) if acc_appends else False
-    run.ob("R-15.2", f"{main.key}::append-once-per-item", len(acc_appends) == 1 and not in_inner_loop and not other and arg_ok,
-           "the accepted branch does not append exactly one File per work-list item", acc_appends[0] if acc_appends else sfx_if)
+    # the list that receives the Files is `files` of main, or is what the extracted helper returns
+    flows = False
+    if acc_appends:
+        recv = acc_appends[0].func.value.id
+        if disc is main:
+            flows = recv == "files"
+        else:
+            rets = [n for n in walk_fn(disc.node) if isinstance(n, ast.Return)]
+            flows = bool(rets) and all(r.value is not None and text(r.value) == recv for r in rets)
+    run.ob("R-15.2", f"{main.key}::append-once-per-item", len(acc_appends) == 1 and not in_inner_loop and not other and arg_ok and flows,
+           "the accepted branch does not append exactly one File per work-list item to the list of files to check",
+           acc_appends[0] if acc_appends else sfx_if)
     # File built from the item itself
     files_ctor = [n for n in ast.walk(stack_loop) if isinstance(n, ast.Call) and text(n.func) == "File"]
     item = text(stack_loop.target)
@@ -158,8 +255,8 @@ def check(run, prog):
            and len(files_ctor[0].args) == 1, "the File is not built from the work-list item itself (path changed on the way)",
            files_ctor[0] if files_ctor else stack_loop)
     dir_if = [n for n in ast.walk(stack_loop) if isinstance(n, ast.If) and "is_dir()" in text(n.test)]
-    okd = len(dir_if) == 1 and all(isinstance(s, ast.AugAssign) and text(s.target) == text(stack_loop.iter) or
-                                   (isinstance(s, ast.Expr) and text(s.value.func).startswith(text(stack_loop.iter) + ".")) for s in dir_if[0].body)
+    okd = len(dir_if) == 1 and all(isinstance(s, ast.AugAssign) and text(s.target) == worklist or
+                                   (isinstance(s, ast.Expr) and text(s.value.func).startswith(worklist + ".")) for s in dir_if[0].body)
     run.ob("R-15.2", f"{main.key}::directory-extends-worklist", okd,
            "a directory argument does something other than extending the work list with its recursive matches",
            dir_if[0] if dir_if else stack_loop)
